@@ -278,3 +278,116 @@ func H_C28_requestUnknownPeers() {
 	_, okA := vRaw(env.store, vPeerA)
 	zzverif.Assert(!okA, "C28.requests_store_nothing")
 }
+
+// vMaxGap bounds the harness-controlled pause between two operations of a sequence (natively a real
+// time.Sleep, symbolically the clock advances by at least the pause and by less than pause + vMaxRun).
+const vMaxGap = 12 * time.Second
+
+// vPause lets `name` (0 .. vMaxGap, drawn) pass on the clock of both worlds.
+func vPause(name string) time.Duration {
+	ms := zzverif.U64(name + "_ms")
+	zzverif.Assume(ms <= uint64(vMaxGap/time.Millisecond))
+	gap := time.Duration(ms) * time.Millisecond
+	ta := time.Now()
+	time.Sleep(gap)
+	tb := time.Now()
+	zzverif.Assume(tb.Sub(ta) >= gap)
+	zzverif.Assume(tb.Sub(ta) < gap+vMaxRun)
+	return gap
+}
+
+// H_C28_cleanupAfterPollSweep: "expired peers are removed only while disconnected" over an operation
+// sequence: records for A (never observed, or observed an arbitrary time ago) and B (never / 1 h ago);
+// optionally a poll sweep (forced or not) while A is connected or not; then A's connection state
+// changes arbitrarily and an arbitrary pause of 0..12 s passes (covers both sides of the 10 s poll
+// tick); then the cleanup sweep runs, with ListPeers answering the *current* connection state or
+// failing.  The decision must follow the ListPeers answer at cleanup time: a peer connected then is
+// kept untouched even if expired; a peer disconnected then and observed > 30 min ago is removed;
+// nothing else is removed; a failing ListPeers skips the sweep, whatever an earlier sweep has seen.
+// Bounds: 2 peers (B's connection state constant), 1 poll sweep, pause <= 12 s, sends do not fail.
+// Clock: vClockStart, vPause; all clock readings lie within pause + vMaxRun.
+func H_C28_cleanupAfterPollSweep() {
+	zzverif.Unwind(64)
+	vClockStart()
+	ids := [2]string{vPeerA, vPeerB}
+	connA0, connA1, connB := zzverif.Bool("connected.A.at_poll"), zzverif.Bool("connected.A.at_cleanup"), zzverif.Bool("connected.B")
+	listing := func(a bool) []PeerID {
+		var l []PeerID
+		if a {
+			l = append(l, vID(vPeerA))
+		}
+		if connB {
+			l = append(l, vID(vPeerB))
+		}
+		return l
+	}
+	env := vNewEnv(nil, nil)
+	env.ln.noFail = true
+	timeout := 30 * time.Minute
+	var peers [2]*Peer
+	var ages [2]int64
+	for i, id := range ids {
+		p := NewPeer(vID(id), "")
+		p.SetStatus(StatusActive)
+		var seen time.Time
+		var age int64
+		if i == 0 {
+			// not inside (30 min - pause - clock slack, 30 min]: there the verdict depends on the exact instant
+			seen, age = vPast("seen.A")
+			clear := time.Duration(age) > timeout
+			if !clear {
+				clear = time.Duration(age)+vMaxGap+2*vMaxRun <= timeout
+			}
+			zzverif.Assume(clear)
+		} else if zzverif.Bool("seen.B.hour_ago") {
+			age = int64(time.Hour)
+			seen = time.Now().Add(-time.Hour)
+		}
+		p.SetLastObservedAt(seen)
+		if err := env.store.SavePeerState(p); err != nil {
+			zzverif.Fail("harness: seeding the store failed")
+		}
+		peers[i], ages[i] = p, age
+	}
+	ctx := context.Background()
+
+	if zzverif.Bool("poll_sweep") {
+		env.ln.peers = listing(connA0)
+		env.ps.poller.pollPeers(ctx, zzverif.Bool("poll_sweep.force"))
+	}
+	// A's connection state changes (or not), time passes
+	env.ln.peers = listing(connA1)
+	env.ln.listErr = zzverif.Bool("listpeers.err_at_cleanup")
+	gap := vPause("pause")
+	sn := vSnapshot(env.store)
+
+	err := env.ps.poller.cleanupExpired(ctx)
+
+	var gerrs [2]error
+	var ageAfter [2]time.Duration
+	for i, id := range ids {
+		_, gerrs[i] = env.store.GetPeerState(vID(id))
+		ageAfter[i] = time.Since(peers[i].LastObservedAt())
+	}
+	zzverif.Assume(time.Since(vT0) < gap+vMaxRun)
+
+	conn := [2]bool{connA1, connB}
+	for i, id := range ids {
+		removed := errors.Is(gerrs[i], ErrPeerNotFound)
+		zzverif.Assert(removed || gerrs[i] == nil, "C28.seq_cleanup_leaves_readable_store")
+		never := peers[i].LastObservedAt().IsZero()
+		switch {
+		case env.ln.listErr:
+			zzverif.Assert(err != nil && !sn.written(env.store, id), "C28.seq_cleanup_skipped_when_listpeers_fails")
+		case conn[i]:
+			zzverif.Assert(!removed && !sn.written(env.store, id), "C28.seq_peer_connected_at_cleanup_is_kept")
+		default:
+			if !never && time.Duration(ages[i]) > timeout {
+				zzverif.Assert(removed, "C28.seq_expired_peer_disconnected_at_cleanup_is_removed")
+			}
+			if removed {
+				zzverif.Assert(!never && ageAfter[i] > timeout, "C28.seq_only_expired_peers_removed")
+			}
+		}
+	}
+}
